@@ -21,10 +21,8 @@ KNOWN = [
                                                      r"values\.hybrid_output_holds_non_null_values|rows\.defined_positions_get_values_in_order|"
                                                      r"rows\.null_positions_get_null)$")),
     ("C03-P-v2-categorical-first-run-header-dropped", re.compile(r"^read_data_page_v2\.values\.dictionary\.width_byte_consumed_then_runs$")),
-    ("C03-P-categorical-read-of-fallback-chunk",
-     re.compile(r"^(read_data_page_v2\.rows\.categorical_codes_only_from_dictionary_encoded_pages|"
-                r"read_col\[categorical\]\.(categorical\.codes_only_from_dictionary_encoded_pages|"
-                r"page_loop\.invariant_preserved\[categories are the chunk's dictionary[^\]]*\]))$")),
+    # (v1 pages: repaired in /repo af3a4f3 = fixed-C03-categorical-read-of-fallback-chunk; read_col[categorical].* are plain obligations)
+    # (v2 pages: repaired c3e23bf = fixed-C03-v2-categorical-read-of-plain-page: call-site precondition of read_data_page_v2)
     ("C03-P-chunk-shorter-than-row-group-not-refused", re.compile(r"^read_col\[\w+\]\.exit\.every_output_row_written$")),
 ]
 
